@@ -363,6 +363,45 @@ def random_module(rng: random.Random, max_claims=6, with_imports=True, syms=SYMS
     return Built(mod, tags, desc, pool)
 
 
+def nested_axioms_module(rng: random.Random, syms=SYMS) -> Built:
+    """Axioms that are sub-patterns of one another and carry symbols, plus claims built from a repeatedly used super-pattern of them:
+    the memoisation analysis (optimize=True) has to rank nested, already saved patterns; its choices must not depend on anything but the module."""
+    PR = repo.mod('proof')
+    P = repo.P()
+    sy = [P.Symbol(x) for x in rng.sample(list(syms) + ['d', 'e'], 3)]
+
+    def small():
+        r = rng.random()
+        if r < 0.6:
+            return P.Implies(rng.choice(sy), rng.choice(sy))
+        if r < 0.8:
+            return P.App(rng.choice(sy), rng.choice(sy))
+        return P.Implies(P.Implies(rng.choice(sy), rng.choice(sy)), rng.choice(sy))
+    chain = [small()]
+    for _ in range(rng.randint(1, 3)):
+        top = chain[-1]
+        chain.append(rng.choice((lambda: P.Implies(top, rng.choice(sy)), lambda: P.Implies(rng.choice(sy), top), lambda: P.App(top, rng.choice(sy)),
+                                 lambda: P.Implies(top, small())))())
+    X = chain[-1]
+    axioms = list(chain)
+    rng.shuffle(axioms)
+    A = P.Implies(P.MetaVar(0), P.MetaVar(0))
+    axioms.insert(rng.randint(0, len(axioms)), A)
+    axioms = list(dict.fromkeys(axioms))
+    mod = PR.ProofExp(axioms=axioms)
+    desc = ['nested axioms: ' + '; '.join(str(a) for a in axioms)]
+    for _ in range(rng.randint(1, 2)):
+        XX = rng.choice((P.Implies(X, X), P.App(X, X), P.Implies(X, chain[0]), P.Implies(chain[-2], X)))
+        Z = rng.choice((P.Implies(XX, XX), P.Implies(XX, X), XX, P.Implies(P.Implies(XX, XX), XX)))
+        th = mod.instantiate(mod.load_axiom(A), {0: Z})
+        if any(E(th.conc) == E(c) for c in mod.get_claims()):
+            continue
+        mod.add_claim(th.conc)
+        mod.add_proof_expression(th)
+        desc.append(f'claim {th.conc}')
+    return Built(mod, {'nested_axioms'}, desc)
+
+
 def tautology_module(rng: random.Random) -> Built:
     """a module whose claims are proved by the tautology prover (derived-rule library end to end)"""
     T = repo.mod('tautology').Tautology
